@@ -486,3 +486,24 @@ func nestedSources() []string {
 		"len(map(1..2, {filter(1..3, {count(1..2, {any(1..2, {# == 2})}) > 0})}))")
 	return out
 }
+
+// shapeSources: shapes that generators reach rarely - negations over connectives whose last operand is itself a
+// negation, negated comparisons over floats (NaN in one environment: `not (a < b)` is not `a >= b`), closures whose
+// textually first use of the element sits in a branch that is not taken, conditionals whose branches have different
+// numeric kinds compared with ==, unary plus / minus over operations, membership of floats / narrow integers in
+// integer arrays, fast functions called several times, calls of one function with different argument counts.
+func shapeSources() []string {
+	out := []string{
+		"!(B and !B2)", "!(B2 and !B)", "not (B or not B2)", "not (B2 or not B)", "!(B ? B2 : !B2)", "!(B2 ? !B : B)", "!!B", "!(!B)", "!(I > 1 && !B) ? 1 : 2", "!(B && !B2) ? \"yes\" : \"no\"",
+		"count(AI, {!(# > 1 and !B)})", "not (not B)", "!(B or !(B2 and !B))", "!(!B ? !B2 : !B)",
+		"not (F64 < 1)", "not (F64 > 1)", "!(F64 <= I)", "!(F64 >= I)", "not (F32 < F64)", "not (AF[0] > 0)", "count(AF, {not (# > 0)})", "filter(AF, {!(# <= 1.5)})", "all(AF, {not (# < 0)})",
+		"F64 <= 1", "F64 >= 1", "F64 <= F64", "F64 >= F64", "AF[0] <= I", "I >= AF[0]", "F32 >= I8", "not (F64 == F64)", "F64 != F64", "(F64 < 1) or (F64 >= 1)",
+		"filter(AI, {B2 ? # > 2 : # > 0})", "filter(AI, {B ? # > 2 : # > 0})", "map(AI, {B2 and # > 100 or # != 1})", "count(AI, {B2 ? # * 2 > 0 : # > 1})", "map(AI, {B2 ? # * 2 : #})",
+		"map(AI, {B ? # * 2 : #})", "any(AI, {(B2 and # > 0) or # == 1})", "map(AS, {B2 ? # + \"x\" : #})", "map(1..3, {B2 ? map(1..2, {#}) : [#]})", "count(AI, {false and # > 0 or # > 1})",
+		"(B ? U8 : I) == 1", "(B2 ? U8 : I) == I", "(B ? I8 : I) == I", "(B ? 1 : 2.5) == 1", "(B2 ? I : U16) + 1", "(B ? F32 : I) * 2", "B ? 1 : 2.5", "B2 ? U8 : I",
+		"+(I % 2)", "I - +(I % (I - I))", "+AI[9]", "-AI[9]", "+(I / (I - I))", "[1, +AI[I]][1]", "map(AI, {+(# % (# - #))})",
+		"F64 in [1, 2, 3]", "F32 in [1, 2]", "2.5 in [1, 2, 3]", "1.5 in AI", "F64 in AI", "F64 in 1..3", "U8 in [200, 404, 500]", "U16 in [80, 443, 70000]", "I8 in [100, 300]", "I16 in [44, 65580]",
+		"Sum(1, 2) + Sum(1)", "Sum(1) + Sum(10, 20)", "Sum(1, 2, 3) + Sum()", "[Fast(1, 2), Fast(3)]", "Fast(1) + Fast(1, 2, 3)", "St.Get() + P.Get()", "Add(1, 2) + Add(3, 4) + Inc(5)",
+	}
+	return out
+}
